@@ -1,10 +1,23 @@
 /*
- * Shared by the unix_io cache units (C17, C04).
- * Single-cell abstraction (DESIGN §C17): one ghost location L* = (block g_bstar, byte g_ostar);
+ * Shared by the unix_io units (C17, C04).
+ * Single-cell abstraction (DESIGN §C17): one ghost location L* = (block g_bstar, byte g_ostar), g_ostar < block_size;
  *   g_logical = the byte most recently written to L* through the channel,
- *   g_disk    = the byte the device holds at L* (moved only by the raw_write_blk contract).
+ *   g_disk    = the byte the device holds at L* (moved only by the raw_write_blk contract / the pwrite stubs).
  * coherent(data): at most one in-use cache entry labelled g_bstar; if there is one its buffer holds
  *   g_logical at g_ostar and (clean => g_disk == g_logical); if there is none g_disk == g_logical.
+ *
+ * Every callee contract used by more than one unit lives here, so that the unit that ENFORCES a contract and the
+ * units that REPLACE calls by it read the very same text.
+ *   find_cached_block, reuse_cache, flush_cached_blocks : enforced in cache.c
+ *   raw_read_blk, raw_write_blk                          : enforced in raw.c
+ *   unix_read_blk64, unix_write_blk64                    : enforced in rw.c
+ *
+ * Configuration macros (per unit, through "defines"):
+ *   CFG_BS=n      block size fixed to n, the eight cache buffers are rows of one static array
+ *   CFG_BS_SET    block size in {16, 1024}, cache buffers are eight separate heap objects of exactly block_size bytes
+ *                 (16 is a configuration bound for tractability: the code is parametric in the block size and only ever
+ *                 adds it to cursors / passes it on as a length; 1024 is the smallest real ext2 block size)
+ *   neither       1 <= block_size <= 65536, heap buffers
  */
 #include "verif.h"
 
@@ -27,6 +40,13 @@ struct in_unixio {
 	unsigned char ret_choice[12];	/* results of the device stubs, consumed in order */
 	unsigned char newbyte;		/* content of the caller's buffer at the ghost location */
 	unsigned int which;
+	long long offset;		/* data->offset */
+	int align;			/* channel->align */
+	unsigned long long count64;
+	unsigned int misalign;		/* start of the caller's buffer inside its object */
+#ifdef IN_EXTRA
+	IN_EXTRA
+#endif
 };
 struct in_unixio IN;
 #include "verif_in.h"
@@ -35,9 +55,17 @@ unsigned long long g_bstar;
 unsigned int g_ostar;
 unsigned char g_disk, g_logical;
 unsigned int g_nwrites;		/* number of raw_write_blk calls so far (ghost) */
-unsigned int g_choice;
+unsigned int g_choice;		/* next ret_choice to consume */
 unsigned int g_nreads;
-int g_wfail;			/* ghost: some device write has failed */		/* next ret_choice to consume */
+int g_wfail;			/* ghost: some device write has failed */
+char *g_cbuf[8];		/* ghost: the eight cache buffers as allocated */
+const unsigned char *g_keep;	/* ghost: address of the byte of the CALLER's buffer that corresponds to L* (0: none) */
+/* ghost copies of the arguments of unix_read_blk64 / unix_write_blk64 on entry (for the in-place loop invariants) */
+unsigned long long g_block0;
+int g_count0;
+int g_covered;			/* the request covers L* */
+unsigned char g_new;		/* the byte the caller writes at L* */
+int g_t0;			/* data->access_time on entry */
 
 #include "lib/ext2fs/unix_io.c"
 
@@ -52,25 +80,63 @@ static struct unix_private_data DATA;
 		  ENTRY_OK(5, L) && ENTRY_OK(6, L) && ENTRY_OK(7, L) && (NMATCH == 1 || g_disk == (L)))
 #define COHERENT COHERENT_L(g_logical)
 #define ANY(f) (f(0) || f(1) || f(2) || f(3) || f(4) || f(5) || f(6) || f(7))
+#define ALL(f) (f(0) && f(1) && f(2) && f(3) && f(4) && f(5) && f(6) && f(7))
 #define INUSE_DIRTY(i) (E(i).in_use && E(i).dirty)
 #define INUSE(i) (E(i).in_use)
+#define BUF_TIED(i) (E(i).buf == g_cbuf[i])
 
 static int coherent(struct unix_private_data *data) { return COHERENT; }
 /* coherent w.r.t. an explicitly given 'most recently written' byte */
 static int coherent_l(struct unix_private_data *data, unsigned char l) { return COHERENT_L(l); }
 static int any_dirty(struct unix_private_data *data) { return ANY(INUSE_DIRTY); }
 static int any_inuse(struct unix_private_data *data) { return ANY(INUSE); }
+static int bufs_tied(struct unix_private_data *data) { return ALL(BUF_TIED); }
 
-/* byte range [block*bs, block*bs+size) covers L* ?  (count < 0 means -count bytes) */
-#define WR_SIZE(ch, count) ((count) < 0 ? (unsigned long long)(-(long long)(count)) : (unsigned long long)(count) * (ch)->block_size)
-/* the single-block case is kept free of multiplications (SAT back ends do not cope with symbolic products) */
-#define COVERS(ch, block, count) ((count) == 1 ? g_bstar == (block) : (g_bstar >= (block) && \
-	(g_bstar - (block)) < 0x100000ULL && \
-	(g_bstar - (block)) * (ch)->block_size + g_ostar < WR_SIZE(ch, count)))
-#define BUF_AT(ch, block, count, buf) ((count) == 1 ? ((const unsigned char *)(buf))[g_ostar] : \
-	((const unsigned char *)(buf))[(g_bstar - (block)) * (ch)->block_size + g_ostar])
+/*
+ * n * bs without a symbolic product for the small n that the cached paths use (SAT back ends do not cope with
+ * symbolic * symbolic; constant * symbolic is a shift/add).
+ */
+#define MULSMALL(n, bs) ((n) == 0 ? 0ULL : (n) == 1 ? (unsigned long long)(bs) : (n) == 2 ? 2ULL * (bs) : (n) == 3 ? 3ULL * (bs) : \
+			 (n) == 4 ? 4ULL * (bs) : (unsigned long long)(n) * (bs))
+#define REL(block) (g_bstar - (block))
+/* number of bytes of a request (count < 0 means -count bytes) */
+#define WR_SIZE(ch, count) ((count) < 0 ? (unsigned long long)(-(long long)(count)) : MULSMALL(count, (ch)->block_size))
+/*
+ * byte range [block*bs, block*bs+size) covers L* ?  For count > 0 (whole blocks) this is block <= b* < block+count
+ * because g_ostar < block_size.
+ */
+#define COVERS(ch, block, count) ((count) > 0 ? (g_bstar >= (block) && REL(block) < (unsigned long long)(count)) : \
+	(g_bstar >= (block) && REL(block) < 0x100000ULL && REL(block) * (ch)->block_size + g_ostar < WR_SIZE(ch, count)))
+/* offset of L* inside a request that starts at `block`, and the byte of the request's buffer there */
+#define OFF_AT(ch, block) (MULSMALL(REL(block), (ch)->block_size) + g_ostar)
+#define BUF_AT(ch, block, count, buf) (((const unsigned char *)(buf))[OFF_AT(ch, block)])
 
-/* the device: contract of the real raw_write_blk as seen by the cache layer (enforced in unit raw_write_blk) */
+/* g_keep lies in the object of p but outside [p, p+n) */
+#define KEEP_OUTSIDE(p, n) (g_keep != 0 && __CPROVER_same_object(g_keep, (p)) && \
+	!(__CPROVER_POINTER_OFFSET(g_keep) >= __CPROVER_POINTER_OFFSET(p) && \
+	  (unsigned long long)(__CPROVER_POINTER_OFFSET(g_keep) - __CPROVER_POINTER_OFFSET(p)) < (unsigned long long)(n)))
+
+#ifndef VERIF_NATIVE
+/*
+ * libc memcpy as seen by the cache layer (CBMC's byte-array model with a symbolic length is what made the monolithic
+ * attempt run out of memory): source readable / destination writable for n bytes are obligations at every call; the copy
+ * is faithful at byte index g_ostar (true of memcpy at every index); all other bytes of the destination OBJECT become
+ * unconstrained (over-approximation) except the tracked caller byte *g_keep when it lies outside [dst, dst+n).
+ */
+void *memcpy(void *dst, const void *src, size_t n)
+	REQUIRES(__CPROVER_r_ok(src, n) && __CPROVER_w_ok(dst, n))
+	ASSIGNS(__CPROVER_object_whole(dst))
+	ENSURES(RET == dst)
+	ENSURES(g_ostar >= n || ((const unsigned char *)dst)[g_ostar] == ((const unsigned char *)src)[g_ostar])
+	ENSURES(!KEEP_OUTSIDE(dst, n) || *g_keep == OLD(*g_keep));
+#endif
+
+/* ------------------------------------------------------------------ the device (enforced in raw.c) */
+/*
+ * raw_write_blk as seen by the cache layer: exactly one device write request; success => the device holds the
+ * caller's byte at L* when the request covers L*; a request that does not cover L* leaves the device byte alone,
+ * whether it succeeds or not.
+ */
 static errcode_t raw_write_blk(io_channel channel, struct unix_private_data *data,
 			       unsigned long long block, int count, const void *bufv, int flags)
 	REQUIRES(count != 0)
@@ -90,9 +156,59 @@ static errcode_t raw_read_blk(io_channel channel, struct unix_private_data *data
 	REQUIRES(count != 0)
 	ASSIGNS(__CPROVER_object_whole(bufv), data->io_stats.bytes_read, g_nreads)
 	ENSURES(g_nreads == OLD(g_nreads) + 1)
-	ENSURES(RET != 0 || !COVERS(channel, block, count) || BUF_AT(channel, block, count, bufv) == g_disk);
+	ENSURES(RET != 0 || !COVERS(channel, block, count) || BUF_AT(channel, block, count, bufv) == g_disk)
+	/* the byte of the caller's buffer that belongs to L* is not touched by a request that does not cover L* */
+	ENSURES(COVERS(channel, block, count) || !KEEP_OUTSIDE(bufv, WR_SIZE(channel, count)) || *g_keep == OLD(*g_keep));
 
-/* contract of flush_cached_blocks (enforced in unit unixio/flush_cached_blocks, used at call sites elsewhere) */
+/* ------------------------------------------------------------------ the cache (enforced in cache.c) */
+#define IDX_OK(c) ((c) == &E(0) || (c) == &E(1) || (c) == &E(2) || (c) == &E(3) || (c) == &E(4) || (c) == &E(5) || \
+		   (c) == &E(6) || (c) == &E(7))
+#define NOT_THIS(i) (!(E(i).in_use && E(i).block == block))
+#define UNUSED_OR_OLDER(i, c) (!E(i).in_use || (c)->access_time <= E(i).access_time)
+#define ATIME_OK(data) ((data)->access_time >= 0 && (data)->access_time < 0x7fffff00)
+
+/*
+ * hit: the in-use entry labelled `block`; miss: NULL and *eldest = an unused entry if there is one, else the LRU one.
+ * Frame: ONLY access times (and *eldest) change - labels, dirty bits, buffers stay, hence coherence is kept for
+ * whatever byte counts as 'most recently written'.
+ */
+static struct unix_cache *find_cached_block(struct unix_private_data *data, unsigned long long block,
+					    struct unix_cache **eldest)
+	REQUIRES(eldest == 0 || __CPROVER_w_ok(eldest, sizeof(*eldest)))
+	REQUIRES(ATIME_OK(data))
+	ENSURES(RET == 0 || (IDX_OK(RET) && RET->in_use && RET->block == block))
+	ENSURES(RET != 0 || ALL(NOT_THIS))
+	ENSURES(RET != 0 || eldest == 0 || (IDX_OK(*eldest) &&
+		(!(*eldest)->in_use || (ALL(INUSE) &&
+		 UNUSED_OR_OLDER(0, *eldest) && UNUSED_OR_OLDER(1, *eldest) && UNUSED_OR_OLDER(2, *eldest) && UNUSED_OR_OLDER(3, *eldest) &&
+		 UNUSED_OR_OLDER(4, *eldest) && UNUSED_OR_OLDER(5, *eldest) && UNUSED_OR_OLDER(6, *eldest) && UNUSED_OR_OLDER(7, *eldest)))))
+	ENSURES(data->access_time >= OLD(data->access_time) && data->access_time <= OLD(data->access_time) + 1)
+	ASSIGNS(data->access_time, E(0).access_time, E(1).access_time, E(2).access_time, E(3).access_time,
+		E(4).access_time, E(5).access_time, E(6).access_time, E(7).access_time; eldest != 0: *eldest);
+
+/*
+ * Re-label `cache` for `block`.  Frame: only that entry (not its buffer, not its buffer pointer), the access clock and
+ * the device.  A dirty victim reaches the device under its OWN block number first; on a write error nothing is
+ * re-labelled and the victim stays dirty.  Stated without reference to g_logical, so that callers in the middle of an
+ * update (unix_write_blk64's loop) can use it.
+ */
+#define VICTIM_AT_LSTAR (OLD(cache->in_use) && OLD(cache->dirty) && OLD(cache->block) == g_bstar)
+static errcode_t reuse_cache(io_channel channel, struct unix_private_data *data, struct unix_cache *cache,
+			     unsigned long long block)
+	REQUIRES(ATIME_OK(data))
+	REQUIRES(IDX_OK(cache) && ALL(NOT_THIS))
+	ENSURES(cache->buf == OLD(cache->buf))
+	ENSURES(RET != 0 || (cache->in_use && !cache->dirty && cache->block == block))
+	ENSURES(RET == 0 || (cache->in_use && cache->dirty && cache->block == OLD(cache->block) && cache->write_err))
+	ENSURES(VICTIM_AT_LSTAR ? (RET != 0 || g_disk == (unsigned char)cache->buf[g_ostar]) : g_disk == OLD(g_disk))
+	ENSURES(RET == 0 ? g_wfail == OLD(g_wfail) : g_wfail == 1)
+	ENSURES(data->access_time >= OLD(data->access_time) && data->access_time <= OLD(data->access_time) + 1)
+	ASSIGNS(*cache, data->access_time, data->io_stats.bytes_written, g_disk, g_nwrites, g_wfail);
+
+/*
+ * flush_cached_blocks.  Frame: the eight entries (labels and buffer pointers stay), the device.
+ */
+#define LABEL_KEPT(i) (E(i).buf == OLD(E(i).buf) && E(i).block == OLD(E(i).block))
 static errcode_t flush_cached_blocks(io_channel channel, struct unix_private_data *data, int flags)
 	REQUIRES(coherent(data) && channel->write_error == 0 && !(data->flags & IO_FLAG_THREADS))
 	ENSURES(coherent(data))
@@ -100,14 +216,18 @@ static errcode_t flush_cached_blocks(io_channel channel, struct unix_private_dat
 	ENSURES(RET != 0 || !(flags & FLUSH_INVALIDATE) || !any_inuse(data))
 	ENSURES(RET == 0 || g_nwrites > 0)
 	ENSURES(RET == 0 ? g_wfail == OLD(g_wfail) : g_wfail == 1)
-	ASSIGNS(__CPROVER_object_whole(data), g_disk, g_nwrites, g_wfail);
+	ENSURES(LABEL_KEPT(0) && LABEL_KEPT(1) && LABEL_KEPT(2) && LABEL_KEPT(3) && LABEL_KEPT(4) && LABEL_KEPT(5) &&
+		LABEL_KEPT(6) && LABEL_KEPT(7))
+	ASSIGNS(E(0), E(1), E(2), E(3), E(4), E(5), E(6), E(7), data->io_stats.bytes_written, g_disk, g_nwrites, g_wfail);
 
 static void build_channel(void)
 {
 	LOAD_IN();
-#ifdef CFG_BS
+#if defined(CFG_BS)
 	/* configuration bound: these functions never compute with the block size, only pass buffers on */
 	ASSUME(IN.block_size == CFG_BS);
+#elif defined(CFG_BS_SET)
+	ASSUME(IN.block_size == 16 || IN.block_size == 1024);
 #else
 	ASSUME(IN.block_size >= 1 && IN.block_size <= 65536);
 #endif
@@ -123,9 +243,9 @@ static void build_channel(void)
 	DATA.magic = EXT2_ET_MAGIC_UNIX_IO_CHANNEL;
 	DATA.flags = IN.data_flags & ~IO_FLAG_THREADS;	/* threads: not applicable (DESIGN §C17) */
 	DATA.access_time = IN.access_time;
-	ASSUME(IN.access_time >= 0 && IN.access_time < 0x7fffff00);	/* assumption: < 2^31 cache accesses per channel (int counter) */
+	ASSUME(IN.access_time >= 0 && IN.access_time < 0x7ffffe00);	/* assumption: < 2^31 cache accesses per channel (int counter) */
 	g_bstar = IN.bstar; g_ostar = IN.ostar; g_disk = IN.disk; g_logical = IN.logical;
-	g_nwrites = 0; g_nreads = 0; g_choice = 0; g_wfail = 0;
+	g_nwrites = 0; g_nreads = 0; g_choice = 0; g_wfail = 0; g_keep = 0;
 #if defined(CFG_BS) && !defined(VERIF_NATIVE)
 	__CPROVER_havoc_object(CBUFS);
 #endif
@@ -136,6 +256,7 @@ static void build_channel(void)
 		DATA.cache[i].buf = malloc(IN.block_size);
 		ASSUME(DATA.cache[i].buf != 0);
 #endif
+		g_cbuf[i] = DATA.cache[i].buf;
 		DATA.cache[i].buf[IN.ostar] = IN.e[i].byte_at_ostar;
 		DATA.cache[i].block = IN.e[i].block;
 		DATA.cache[i].access_time = IN.e[i].access_time;
